@@ -181,6 +181,8 @@ func builtinArraySplice(call FunctionCall) Value {
 		indexString := arrayIndexToString(start + index)
 		if thisObject.hasProperty(indexString) {
 			valueArray[index] = thisObject.get(indexString)
+		} else {
+			valueArray[index] = emptyValue
 		}
 	}
 
